@@ -105,28 +105,30 @@ class RowSource:
         self.typed = typed          # function (r, c, bit) -> module type, for the verbose source
         self.calls = []
 
-    def _cell(self, r, c, qz):
+    def _cell(self, r, c, qz, typed):
         h, w = len(self.matrix), len(self.matrix[0])
         if 0 <= r < h and 0 <= c < w:
             v = self.matrix[r][c]
-            return self.typed(r, c, v) if self.typed else v
-        return qz if self.typed else 0
+            return self.typed(r, c, v) if typed else v
+        return qz if typed else 0
 
-    def rows(self, size, scale, border, qz=None):
+    def rows(self, size, scale, border, qz=None, typed=False):
         w, h = size
         s = int(scale)
         b = default_border(size) if border is None else border
+        typed = typed and self.typed is not None
         for y in range((h + 2 * b) * s):
-            yield [self._cell(y // s - b, x // s - b, qz) for x in range((w + 2 * b) * s)]
+            yield [self._cell(y // s - b, x // s - b, qz, typed) for x in range((w + 2 * b) * s)]
 
     def plain(self, matrix, matrix_size, scale=1, border=None):
+        # matrix_iter: dark / light only, whatever the caller wants to do with module types
         self.calls.append(('matrix_iter', scale, border, matrix is self.matrix))
         return iter(list(self.rows(matrix_size, scale, border)))
 
     def verbose(self, qz):
         def f(matrix, matrix_size, scale=1, border=None):
             self.calls.append(('matrix_iter_verbose', scale, border, matrix is self.matrix))
-            return iter(list(self.rows(matrix_size, scale, border, qz)))
+            return iter(list(self.rows(matrix_size, scale, border, qz, typed=True)))
         return f
 
 
